@@ -354,10 +354,19 @@ def _join_all(items):
     return r
 
 
+def _is_zero_const(v):
+    return v.has_const() and isinstance(v.c, (int, float)) and v.c == 0
+
+
 def _join_facets(r, a, b):
     r.orth = a.orth if a.orth == b.orth else None
     r.lg = a.lg if (a.lg is not None and b.lg is not None and a.lg == b.lg) \
         else None
+    # the literal 0 is zero at every scale
+    if r.lg is None and _is_zero_const(a) and b.lg is not None:
+        r.lg = b.lg
+    if r.lg is None and _is_zero_const(b) and a.lg is not None:
+        r.lg = a.lg
     r.deg = a.deg if a.deg == b.deg else None
     r.unit = a.unit if a.unit == b.unit else None
     r.taint = a.taint | b.taint
